@@ -14,6 +14,20 @@ FW_RULE = ("cases = random validated machine sets x call histories drawn from on
            "A case is non-trivial when %s; distinct = distinct wire encodings.")
 
 PROPS = {
+    "C11": {
+        "sub": "c11",
+        "n": {"quick": 1500, "thorough": 60000},
+        "coq_sample": {"quick": 12, "thorough": 100},
+        "rule": ("cases of six kinds drawn from one SplitMix64 state, built from generated valid machines (1-2000 states, all action/distribution/counter variants, "
+                 "extreme numeric fields): (0) the real bincode encoding must equal the model's ser_machine byte for byte; (1) base64 text of real compressed payloads / "
+                 "random bytes must equal b64_encode; (2) base64 decoding of mutated texts (bad symbols, padding in wrong places, non-canonical trailing bits, wrong "
+                 "length) must agree on accept/reject and value; (3,4) bincode decoding of mutated bytes must agree on accept/reject, validation verdict and canonical "
+                 "re-encoding; (5) the real pipeline: from_str(serialize(m)) re-serializes identically (same name), and hostile strings (mutated payloads re-compressed, "
+                 "zlib bombs of 1-5 MiB, wrong versions, truncations, non-ASCII, random bytes; mutated legacy v1 blobs) are rejected or yield a validated machine, "
+                 "without panicking. Non-trivial/distinct = distinct case encodings."),
+        "timeout": 3000,
+        "assumptions": ["zlib (flate2), SHA-256 and the allocator are oracles; memory use is not measured by this check"],
+    },
     "C06": {
         "sub": "c06",
         "n": {"quick": 60, "thorough": 3000},
